@@ -191,6 +191,8 @@ def run(chk, repo):
     chk.clauses.append('C03.i (R-EFFECT) PVGOrf.copy() gives every copy its own start-gain / cleavage-gain sets: labels added on one traversal branch never leak into a sibling branch')
     copy_own_containers(chk, repo, 'C03.i', ['svgraph.PVGOrf:PVGOrf', 'svgraph.PVGNode:PVGNode'], floor=2)
     sec_split_rebase(chk, repo, 'C03.j')
+    stop_lost_scan(chk, repo, 'C03.k')
+    stage_comparator_per_node(chk, repo, 'C03.l')
 
 
 def sec_variant_filter(chk, repo, rid):
@@ -281,3 +283,72 @@ def sec_split_rebase(chk, repo, rid):
                        "shifted exactly once and the left part never - a Sec position off by the split index cuts the peptide at the wrong residue under an unchanged SECT label",
                        key=f"{f.qual}::sec-rebase", fn=f.qual)
     chk.extra['sec_split_sites'] = n_sites
+
+
+
+def stop_lost_scan(chk, repo, rid):
+    """R-DEPENDS / R-DRAIN: PVGNode.get_stop_lost_variants(stop_index) is a function of the node's variants and the stop codon: every
+    variant is looked at (the scan over self.variants is on every path to a return) and no other state of the node (its
+    reference locations, its sequence) takes part - residues made of variant sequence have no reference location, so a test on
+    seq.locations drops exactly the stop-lost variants that replace the whole stop codon."""
+    from sa.cfg import CFG
+    chk.rule(rid, 'R-DEPENDS: stop-lost variants are decided from the variants of the node and the stop codon alone', 2)
+    chk.clauses.append('C03.k get_stop_lost_variants looks at every variant of the node and at nothing else of the node (no early exit on reference locations): read-through peptides keep the stop-lost variant in their label')
+    f = repo.func('svgraph.PVGNode:PVGNode.get_stop_lost_variants')
+    chk.uses(f)
+    reads = sorted({unparse(n) for n in ast.walk(f.node) if isinstance(n, ast.Attribute) and isinstance(n.ctx, ast.Load) and isinstance(n.value, ast.Name)
+                    and n.value.id == 'self'} | {f"self.{n.func.attr}()" for n in ast.walk(f.node) if isinstance(n, ast.Call) and isinstance(n.func, ast.Attribute)
+                                                 and isinstance(n.func.value, ast.Name) and n.func.value.id == 'self'})
+    chk.ob(rid, 'the only state of the node that is read is self.variants', f.where, set(reads) <= {'self.variants'},
+           f"get_stop_lost_variants reads {reads}: the answer depends on more than the variants and the stop codon", key=f.qual + '::depends', fn=f.qual)
+    cfg = CFG(f.node)
+    loops = [cfg.node_for(l) for l in walk_no_nested(f.node) if isinstance(l, ast.For) and unparse(l.iter) == 'self.variants']
+    scans = loops or [n.id for n in cfg.nodes if n.kind == 'stmt' and any(isinstance(c, (ast.ListComp, ast.GeneratorExp)) and
+                      any(unparse(g.iter) == 'self.variants' and not g.ifs == None for g in c.generators) for c in ast.walk(n.ast))]
+    rets = [n.id for n in cfg.nodes if n.kind == 'stmt' and isinstance(n.ast, ast.Return)]
+    ok = bool(scans) and bool(rets) and all(any(cfg.dominates(s_, r_) or s_ == r_ for s_ in scans) for r_ in rets)
+    chk.ob(rid, 'the scan over self.variants is on every path to a return', f.where, ok,
+           'get_stop_lost_variants can return without having looked at the variants of the node', key=f.qual + '::scan-dominates', fn=f.qual)
+
+
+def stage_comparator_per_node(chk, repo, rid):
+    """R-FRESH: PVGTraversal.stage ranks the cursors staged for a node with a comparator chosen FOR THAT NODE (for a known ORF it
+    depends on out_node.reading_frame_index).  The chosen comparator must not be stored on the traversal (self.<attr>) and read
+    back for another node: no function that stage() calls on self to obtain the sort key may return a value it read from an
+    attribute of self that it (or stage) assigns."""
+    from sa import sem
+    chk.rule(rid, 'R-FRESH: the cursor comparator is chosen per staged node, never cached on the traversal', 1)
+    chk.clauses.append('C03.l the comparator that ranks the cursors of a node is selected from that node (reading frame vs known ORF) at every call of stage(): it is not memoised across nodes')
+    f = repo.func('svgraph.PeptideVariantGraph:PVGTraversal.stage')
+    chk.uses(f)
+    cls_q = f.qual.rsplit('.', 1)[0]
+    sorts = [c for c in ast.walk(f.node) if isinstance(c, ast.Call) and call_name(c) in ('sort', 'sorted') and kwarg(c, 'key') is not None]
+    if not sorts:
+        chk.undecided(rid, 'cursor ranking', f.where, 'no sort(key=...) found in PVGTraversal.stage', key=f.qual + '::sort', fn=f.qual)
+        return
+    assigned = set()
+    for q, g in repo.functions.items():
+        if q.startswith(cls_q + '.'):
+            for n in ast.walk(g.node):
+                if isinstance(n, ast.Attribute) and isinstance(n.ctx, ast.Store) and isinstance(n.value, ast.Name) and n.value.id == 'self':
+                    assigned.add(n.attr)
+    cmp_names = {q.rsplit('.', 1)[1] for q in repo.functions if q.startswith(cls_q + '.') and q.rsplit('.', 1)[1].startswith(('cmp_', 'comp_'))}
+    for c in sorts:
+        key = kwarg(c, 'key')
+        st = repo.enclosing_stmt(c)
+        e = sem.expand_names(f.node, st, key, allow_calls=('cmp_to_key',), depth=4)
+        bad = []
+        for n in ast.walk(e):
+            # a data attribute of the traversal (assigned somewhere in the class, not a method) used as / inside the key
+            if isinstance(n, ast.Attribute) and isinstance(n.value, ast.Name) and n.value.id == 'self' and n.attr in assigned and n.attr not in cmp_names:
+                bad.append(f"self.{n.attr}")
+            if isinstance(n, ast.Call) and isinstance(n.func, ast.Attribute) and isinstance(n.func.value, ast.Name) and n.func.value.id == 'self' \
+                    and f"{cls_q}.{n.func.attr}" in repo.functions and n.func.attr not in cmp_names:
+                h = repo.func(f"{cls_q}.{n.func.attr}")
+                for r_ in [x for x in ast.walk(h.node) if isinstance(x, ast.Return) and x.value is not None]:
+                    for m in ast.walk(r_.value):
+                        if isinstance(m, ast.Attribute) and isinstance(m.value, ast.Name) and m.value.id == 'self' and m.attr in assigned and m.attr not in cmp_names:
+                            bad.append(f"self.{n.func.attr}() returns self.{m.attr}")
+        chk.ob(rid, 'the sort key is built from the comparator chosen in this call', repo.loc(f, c), not bad,
+               f"the cursors are ranked with {sorted(set(bad))}: a value kept on the traversal object, chosen for an earlier node "
+               "(in-frame and frame-shifted nodes need different comparators)", key=f.qual + '::comparator-fresh', fn=f.qual)
